@@ -709,6 +709,11 @@ func ruleMergeOrder(p *Prog, r *Report) {
 			if !outer {
 				continue
 			}
+			if args := cs.In.Common().Args; len(args) == 2 {
+				if _, isLit := sliceLitElems(args[1]); isLit {
+					continue // element-wise append (accumulation), not a concatenation of lists
+				}
+			}
 			ch := appendChain(cs.In.Value())
 			if len(ch) == 2 {
 				// prependACL ++ acl : first operand is the list built from non-append raw lines
